@@ -474,6 +474,7 @@ func (lh *levelHandler) close() error {
 	return nil
 }
 func (lh *levelHandler) add(t *table) {
+	verifhook.Yield(lh, "level.add")
 	lh.Lock()
 	defer lh.Unlock()
 	t.setLevel(lh.levelNum)
@@ -822,6 +823,7 @@ func (lh *levelHandler) isLastLevel() bool {
 // replaceTables will replace tables[left:right] with newTables. Note this EXCLUDES tables[right].
 // You must call decr() to delete the old tables _after_ writing the update to the manifest.
 func (lh *levelHandler) replaceTables(toDel, toAdd []*table) error {
+	verifhook.Yield(lh, "level.replaceTables")
 	// Need to re-search the range of tables in this level to be replaced as other goroutines might
 	// be changing it as well.  (They can't touch our tables, but if they add/remove other tables,
 	// the indices get shifted around.)
@@ -859,6 +861,7 @@ func (lh *levelHandler) replaceTables(toDel, toAdd []*table) error {
 
 // deleteTables remove tables idx0, ..., idx1-1.
 func (lh *levelHandler) deleteTables(toDel []*table) error {
+	verifhook.Yield(lh, "level.deleteTables")
 	lh.Lock() // s.Unlock() below
 
 	toDelMap := make(map[uint64]struct{})
@@ -888,6 +891,7 @@ func (lh *levelHandler) deleteTables(toDel []*table) error {
 }
 
 func (lh *levelHandler) deleteIngestTables(toDel []*table) error {
+	verifhook.Yield(lh, "level.deleteIngestTables")
 	lh.Lock() // s.Unlock() below
 
 	toDelMap := make(map[uint64]struct{})
@@ -904,6 +908,7 @@ func (lh *levelHandler) deleteIngestTables(toDel []*table) error {
 }
 
 func (lh *levelHandler) replaceIngestTables(toDel, toAdd []*table) error {
+	verifhook.Yield(lh, "level.replaceIngestTables")
 	lh.Lock()
 
 	toDelMap := make(map[uint64]struct{})
